@@ -118,7 +118,7 @@ func respell(r *sim.RNG, canon string) (string, []string) {
 			}
 		case 6:
 			if u.Scheme == "file" && suffix == "" {
-				suffix = "?a=b"
+				suffix = []string{"?a=b", "?", "?x"}[r.Intn(3)]
 				kinds["file-query"] = true
 			}
 		case 7:
